@@ -71,6 +71,43 @@ let exn_name = function
 
 let opt_bytes = function None -> "None" | Some b -> hex_of_bytes b
 
+let exn_of_name = function
+  | "UBXParseError" -> EUBXParse | "UBXMessageError" -> EUBXMessage | "UBXTypeError" -> EUBXType
+  | "UBXStreamError" -> EUBXStream | "NMEAError" -> ENmea | "RTCMError" -> ERtcm | "EOFError" -> EEOF
+  | "AttributeError" -> EAttribute | "struct.error" -> EStruct | "TypeError" -> EType
+  | "ValueError" -> EValue | "OverflowError" -> EOverflow | "IndexError" -> EIndex | "KeyError" -> EKey
+  | "UnboundLocalError" -> EUnbound | "ZeroDivisionError" -> EZeroDiv | "MemoryError" -> EMemory
+  | _ -> EOther
+
+(* ---------- reader ---------- *)
+(* oracle table: proto:rawhex:outcome,...   outcome = OK | <exception name> *)
+let parse_table (s : string) : (int * string, string) Hashtbl.t =
+  let h = Hashtbl.create 16 in
+  if s <> "-" then
+    List.iter (fun e ->
+      match String.split_on_char ':' e with
+      | [p; raw; o] -> Hashtbl.replace h (int_of_string p, raw) o
+      | _ -> failwith "table") (String.split_on_char ',' s);
+  h
+let oracle tbl (proto : n) (raw : n list) : bool result =
+  match Hashtbl.find_opt tbl (int_of_n proto, hex_of_bytes raw) with
+  | Some "OK" -> Ok true
+  | Some "NONE" -> Ok false      (* the parser returned None rather than raising *)
+  | Some nm -> Raise (exn_of_name nm)
+  | None -> Raise EOther      (* the implementation never asked its parser about this frame *)
+let nmea_fn (s : string) : n -> bool =
+  let l = List.map int_of_n (bytes_of_hex s) in fun b -> List.mem (int_of_n b) l
+let mk_cfg pf qe parsing = { protfilter = n_of_int (int_of_string pf); quitonerror = n_of_int (int_of_string qe); parsing = (parsing = "1") }
+let show_run (r : ('s, bool) run) (final : string) : string =
+  let items = String.concat "," (List.map (fun (raw, p) -> hex_of_bytes raw ^ (match p with Some true -> ":1" | _ -> ":0")) r.items) in
+  let reps = String.concat "," (List.map exn_name r.reports) in
+  Printf.sprintf "ITEMS %s REPORTS %s RAISED %s FINAL %s FUEL %d"
+    (if items = "" then "-" else items) (if reps = "" then "-" else reps)
+    (match r.raised with None -> "None" | Some e -> exn_name e) final (if r.out_of_fuel then 1 else 0)
+let events_of_string (s : string) : ev list =
+  if s = "-" then [] else
+  List.map (fun e -> if e = "F" then Fail else if e = "E" then Chunk [] else Chunk (bytes_of_hex e)) (String.split_on_char ',' s)
+
 (* ---------- commands ---------- *)
 let handle (toks : string list) : string =
   match toks with
@@ -86,6 +123,13 @@ let handle (toks : string list) : string =
       (match int_enc (sg = "1") (nat_of_int (int_of_string w)) (z_of_str z) with
        | Ok b -> "OK " ^ hex_of_bytes b | Raise e -> "RAISE " ^ exn_name e)
   | ["INTDEC"; sg; h] -> str_of_z (int_dec (sg = "1") (bytes_of_hex h))
+  | ["READ"; pf; qe; parsing; nm; stream; table] ->
+      let r = file_read_all (oracle (parse_table table)) (nmea_fn nm) (mk_cfg pf qe parsing) (bytes_of_hex stream) in
+      show_run r (hex_of_bytes r.final)
+  | ["SOCK"; pf; qe; parsing; nm; evs; table] ->
+      let r = sock_run (oracle (parse_table table)) (nmea_fn nm) (mk_cfg pf qe parsing) (events_of_string evs) in
+      show_run r (hex_of_bytes (abs r.final))
+  | ["PROTOCOL"; nm; h] -> string_of_int (int_of_n (protocol (nmea_fn nm) (bytes_of_hex h)))
   | _ -> "ERR unknown command"
 
 let () =
